@@ -11,12 +11,15 @@ import (
 	"strconv"
 	"strings"
 	"sync"
+	"net"
 	"sync/atomic"
 	"testing"
 	"testing/synctest"
 	"time"
 
 	"github.com/plgd-dev/go-coap/v3/message/codes"
+	"github.com/plgd-dev/go-coap/v3/net/blockwise"
+	"github.com/plgd-dev/go-coap/v3/tcp"
 	"github.com/plgd-dev/go-coap/v3/message/pool"
 	"github.com/plgd-dev/go-coap/v3/net/responsewriter"
 	"github.com/plgd-dev/go-coap/v3/options"
@@ -385,9 +388,143 @@ func TestC07Write(t *testing.T) {
 			fmt.Fprintln(w, runWrite(t, seed, big, small, writers, f[0] == "wrr"))
 			return
 		}
+		if len(f) == 4 && f[0] == "wrs" {
+			seed, _ := strconv.ParseInt(f[1], 10, 64)
+			big, _ := strconv.Atoi(f[2])
+			ms, _ := strconv.Atoi(f[3])
+			fmt.Fprintln(w, runWriteStalled(t, seed, big, ms))
+			return
+		}
 		fmt.Fprintln(w, "bad-op")
 	})
 	if err != nil {
 		t.Fatal(err)
 	}
+}
+
+// ---- a write that is held up in the middle of a frame ------------------------------------------------------------------
+//
+//	wrs <seed> <bigBytes> <ctxMs>
+//
+// The peer reads the first 5000 bytes of the stream and then nothing for 300 ms (a slow reader; virtual time).  Writer A's
+// message (bigBytes of body) was issued with a context that ends after ctxMs — while its frame is half out.  When the peer
+// reads again, writer B sends two short messages.  Whatever A's call returned: the stream must still consist of complete
+// frames of messages that were written — either A's whole frame followed by B's, or (if the connection was given up)
+// nothing after the cut; never B's frames behind half of A's.
+// Output: `sent <d>* | recv <d>* rest <n> err <e> closed <0|1>` (sent = the messages whose write reported success).
+func runWriteStalled(t *testing.T, seed int64, big int, ctxMs int) (line string) {
+	defer func() {
+		if p := recover(); p != nil {
+			line = fmt.Sprintf("panic %v", p)
+		}
+	}()
+	synctest.Test(t, func(t *testing.T) {
+		a, b := net.Pipe()
+		var mu sync.Mutex
+		var got []byte
+		readerDone := make(chan struct{})
+		resume := make(chan struct{})
+		go func() {
+			defer close(readerDone)
+			buf := make([]byte, 4096)
+			total := 0
+			held := false
+			for {
+				n, err := b.Read(buf)
+				mu.Lock()
+				got = append(got, buf[:n]...)
+				mu.Unlock()
+				total += n
+				if err != nil {
+					return
+				}
+				if !held && total >= 5000 {
+					held = true
+					<-resume
+				}
+			}
+		}()
+		cc, err := tcp.Client(a, options.WithBlockwise(false, blockwise.SZX1024, time.Second), options.WithMaxMessageSize(1<<20),
+			options.WithErrors(func(error) {}), options.WithPeriodicRunner(func(func(now time.Time) bool) {}))
+		if err != nil {
+			line = "conn-error"
+			return
+		}
+		synctest.Wait()
+		mk := func(ctx context.Context, w, seq, n int) (*pool.Message, string) {
+			body := make([]byte, n)
+			x := uint64(seed)*1000003 + uint64(w)*7919 + uint64(seq)*104729 + 1
+			for i := range body {
+				x = x*6364136223846793005 + 1442695040888963407
+				body[i] = byte(x >> 56)
+			}
+			m := pool.NewMessage(ctx)
+			m.SetCode(codes.POST)
+			m.SetToken([]byte{byte(w), byte(seq), 0})
+			m.SetBody(bytes.NewReader(body))
+			return m, fmt.Sprintf("%d.%d.%d.%s", w, seq, n, lp.Hex64(fnvBytes(body)))
+		}
+		ctxA, cancelA := context.WithTimeout(context.Background(), time.Duration(ctxMs)*time.Millisecond)
+		defer cancelA()
+		mA, dA := mk(ctxA, 0, 0, big)
+		aDone := make(chan error, 1)
+		go func() { aDone <- cc.WriteMessage(mA) }()
+		time.Sleep(300 * time.Millisecond) // the context of A has ended meanwhile; the peer starts reading again
+		close(resume)
+		synctest.Wait()
+		var sent []string
+		werr := 0
+		for s := 0; s < 2; s++ {
+			m, d := mk(context.Background(), 1, s, 20+s)
+			if err := cc.WriteMessage(m); err != nil {
+				werr++
+			} else {
+				sent = append(sent, d)
+			}
+		}
+		select {
+		case errA := <-aDone:
+			if errA == nil {
+				sent = append([]string{dA}, sent...) // only a write that reported success counts as sent
+			}
+		case <-time.After(2 * time.Second):
+		}
+		synctest.Wait()
+		closed := 0
+		select {
+		case <-cc.Done():
+			closed = 1
+		default:
+		}
+		_ = cc.Close()
+		_ = b.Close()
+		<-readerDone
+		mu.Lock()
+		stream := got
+		mu.Unlock()
+		// cut into frames; the connection's own CSM comes first
+		var recv []string
+		derr := 0
+		for len(stream) > 0 {
+			var h tcpcoder.MessageHeader
+			if _, err := tcpcoder.DefaultCoder.DecodeHeader(stream, &h); err != nil || uint32(len(stream)) < h.MessageLength {
+				break
+			}
+			fr := stream[:h.MessageLength]
+			stream = stream[h.MessageLength:]
+			rm := pool.NewMessage(context.Background())
+			if _, err := rm.UnmarshalWithDecoder(tcpcoder.DefaultCoder, fr); err != nil {
+				derr++
+				continue
+			}
+			if rm.Code() != codes.POST || len(rm.Token()) != 3 {
+				continue
+			}
+			body := bodyOf(rm)
+			tk := rm.Token()
+			recv = append(recv, fmt.Sprintf("%d.%d.%d.%s", tk[0], int(tk[1]), len(body), lp.Hex64(fnvBytes(body))))
+		}
+		line = fmt.Sprintf("sent %s | recv %s rest %d err %d closed %d", strings.Join(sent, " "), strings.Join(recv, " "), len(stream), derr, closed)
+	})
+	return line
 }
